@@ -53,8 +53,12 @@ def build_index(case):
     if how == 'rebuild':
         # a network indexed with the default grid, whose edge geometries are then replaced (each edge was a straight chord between its ends), indexed again the same way:
         # the second index is the one queried
-        for k, t in enumerate(case['tracks']):
-            tr = mk([t[0], t[-1]])
+        chords = [[t[0], t[-1]] for t in case['tracks']]
+        ex = [p[0] for c in chords for p in c]; ey = [p[1] for c in chords for p in c]
+        if max(ex) == min(ex) or max(ey) == min(ey):
+            chords = case['tracks']                 # the index constructor needs a positive extent in both directions: the first index is then built on the final geometries
+        for k, t in enumerate(chords):
+            tr = mk(t)
             net.addEdge(Edge(k + 1, tr), Node('s%d' % k, tr.getFirstObs().position), Node('t%d' % k, tr.getLastObs().position))
         net.createSpatialIndex(verbose=False)
         for k, t in enumerate(case['tracks']):
